@@ -11,6 +11,8 @@ package main
 //	trunc <file> <len> | append <file> <n> <val> | del <file>
 //	swap <fi> <fj> | copy <fi> <fj>                                         fragment swap / duplication
 //	man <json.path> <json-value>                                            single manifest field edit
+//	mans <json.path> <json-value> <json.path> <json-value> ...              consistent multi-field manifest edit
+//	arcmans <json.path> <json-value> ...                                    the same, packed by the REAL archive writer and loaded through ArchiveReader
 //	arc sub <off> <xor> | arc trunc <len> | arc append <n> | arc noop       encrypted archive bytes, Load with ArchiveReader
 //	arckey wrong | arckey malformed <variant>                               wrong / malformed key material
 //	tar <mode> <pre> <entry,entry,...>                                      see c20_tar.go
@@ -169,7 +171,7 @@ func c20BuildDump(kv map[string]string) (*c20Dump, error) {
 	if err := os.WriteFile(manifestPath, raw, 0o600); err != nil {
 		return nil, err
 	}
-	d := &c20Dump{expected: src.canonical(), batch: batch}
+	d := &c20Dump{expected: src.canonical(), batch: c20Atoi(kv["lbatch"], batch)} // lbatch: BatchSize of Load only
 	d.files = append(d.files, c20File{path: retriever.ManifestFileName, data: raw})
 	for _, g := range res.Manifest.Graphs {
 		for _, f := range g.Files {
@@ -228,7 +230,8 @@ func c20ErrClass(err error) string {
 	for _, p := range [][2]string{
 		{"sha256 mismatch", "checksum"}, {"compressed byte mismatch", "bytecount"},
 		{"decode manifest", "manifest-json"}, {"read manifest", "manifest-read"},
-		{"does not match manifest count", "count"}, {"unsupported compression", "codec"},
+		{"does not match manifest count", "count"}, {"but manifest expected", "entity-count-after-write"},
+		{"decoded", "fragment-count-after-write"}, {"unsupported compression", "codec"},
 		{"open compressed fragment", "codec-open"}, {"decode JSONL", "jsonl"}, {"open fragment", "open"},
 		{"does not match", "manifest-validate"}, {"unsupported", "manifest-validate"}, {"manifest", "manifest-validate"},
 		{"missing final frame", "frame-missing-final"}, {"decrypt archive frame", "frame-decrypt"},
@@ -274,6 +277,26 @@ func (d *c20Dump) load(stats *Stats, files []c20File, archive []byte, identity h
 		// the fine class goes to the statistics only so that the answer stream is a function of the seed
 		cls = "archive"
 	}
+	return fmt.Sprintf("%s log=%d schema=%d equal=%s cls=%s", res, len(db.mutations), len(db.schemaLog), equal, cls)
+}
+
+// loadKeepClass loads an UNTAMPERED archive (built from an edited collection): the error class is a function
+// of the collection, so it is kept in the answer.
+func (d *c20Dump) loadKeepClass(stats *Stats, archive []byte, identity hpke.PrivateKey) string {
+	db := newC20DB()
+	_, err := retriever.Load(context.Background(), db, "test", retriever.LoadOptions{
+		BatchSize: d.batch, ProgressInterval: retriever.DefaultProgressInterval,
+		ArchiveReader: bytes.NewReader(archive), ArchiveIdentity: identity})
+	res, equal := "err", "-"
+	if err == nil {
+		res, equal = "ok", "0"
+		if db.canonical() == d.expected {
+			equal = "1"
+		}
+	}
+	cls := c20ErrClass(err)
+	stats.Inc("branch.load." + res)
+	stats.Inc("errclass." + cls)
 	return fmt.Sprintf("%s log=%d schema=%d equal=%s cls=%s", res, len(db.mutations), len(db.schemaLog), equal, cls)
 }
 
@@ -452,6 +475,33 @@ func (r *c20Runner) Step(t []string, raw string) string {
 		files := d.clone()
 		files[0].data = edited
 		return d.load(r.stats, files, nil, nil)
+	case (t[0] == "mans" || t[0] == "arcmans") && len(t) >= 3 && len(t)%2 == 1:
+		edited := d.files[0].data
+		for i := 1; i+1 < len(t); i += 2 {
+			next, ok := c20EditManifest(edited, t[i], t[i+1])
+			if !ok {
+				return "bad-op"
+			}
+			edited = next
+		}
+		files := d.clone()
+		files[0].data = edited
+		if t[0] == "mans" {
+			return d.load(r.stats, files, nil, nil)
+		}
+		// pack the edited collection with the real writer (it validates the manifest, not the fragments)
+		dir, err := c20Materialise(files)
+		if err != nil {
+			return "harness-error " + err.Error()
+		}
+		defer os.RemoveAll(dir)
+		var arc bytes.Buffer
+		if err := retriever.WriteEncryptedCollectionArchive(&arc, dir, d.pub); err != nil {
+			r.stats.Inc("arcmans.unbuildable")
+			return "skip unbuildable " + c20ErrClass(err)
+		}
+		r.stats.Inc("arcmans.built")
+		return d.loadKeepClass(r.stats, arc.Bytes(), d.priv)
 	case t[0] == "arc" && len(t) >= 2:
 		arc := append([]byte(nil), d.archive...)
 		switch {
@@ -763,6 +813,86 @@ func (c20Suite) Gen(rng *Rng, tier string, w *bufio.Writer, stats *Stats) {
 			ops = append(ops, "arckey malformed "+v)
 		}
 		flush("archive")
+	}
+	// --- consistent multi-field manifest edits (fragment count together with the graph totals and the metrics,
+	// lowered and raised; digest/size pairs; path swaps; whole-entry swaps), under several Load batch sizes
+	// (1, below / equal / above the record counts), per codec, directory and ArchiveReader input
+	for ci, codec := range codecs {
+		for _, lbatch := range []int{1, 2, 3, 1000} {
+			if !thorough && lbatch == 3 {
+				continue
+			}
+			dumpLine := fmt.Sprintf("dump codec=%s graphs=2 nodes=4 edges=4 shard=2 batch=2 gseed=%d lbatch=%d", codec, 100+ci, lbatch)
+			d, err := c20BuildDump(c20KV(strings.Fields(dumpLine)[1:]))
+			if err != nil {
+				continue
+			}
+			var man retriever.Manifest
+			_ = json.Unmarshal(d.files[0].data, &man)
+			var ops []string
+			both := func(edit string) {
+				ops = append(ops, "mans "+edit)
+				if thorough || lbatch != 2 {
+					ops = append(ops, "arcmans "+edit)
+				}
+				stats.Inc("gen.man_consistent")
+			}
+			for gi, g := range man.Graphs {
+				gp := fmt.Sprintf("graphs.%d", gi)
+				for fi, f := range g.Files {
+					fp := fmt.Sprintf("%s.files.%d", gp, fi)
+					total, totalName := g.NodeCount, "node_count"
+					if f.Phase == retriever.PhaseEdges {
+						total, totalName = g.EdgeCount, "edge_count"
+					}
+					deltas := []int{-1, 1}
+					for k := 2; k <= f.Count; k++ {
+						deltas = append(deltas, -k)
+					}
+					deltas = append(deltas, 2, 5)
+					for _, delta := range deltas {
+						c, tt := f.Count+delta, total+int64(delta)
+						if c < 0 || tt < 0 {
+							continue
+						}
+						core := fmt.Sprintf("%s.count %d %s.%s %d", fp, c, gp, totalName, tt)
+						both(core + " metrics null")
+						both(fmt.Sprintf("%s metrics.graphs.%d.%s %d", core, gi, totalName, tt))
+						ops = append(ops, "mans "+core) // metrics left inconsistent: refused by the preflight
+					}
+					// digest / size pairs and path swaps with every other fragment
+					for gj, g2 := range man.Graphs {
+						for fj, f2 := range g2.Files {
+							if gj == gi && fj == fi {
+								continue
+							}
+							fp2 := fmt.Sprintf("graphs.%d.files.%d", gj, fj)
+							both(fmt.Sprintf("%s.sha256 \"%s\" %s.compressed_bytes %d", fp, f2.SHA256, fp, f2.CompressedBytes))
+							if f2.Count == f.Count && (gj > gi || fj > fi) {
+								ops = append(ops, fmt.Sprintf("mans %s.path \"%s\" %s.path \"%s\"", fp, f2.Path, fp2, f.Path))
+								if f2.Phase == f.Phase && gj == gi {
+									// whole entries exchanged (path, digest, size): a self-consistent reordering
+									both(fmt.Sprintf("%s.path \"%s\" %s.path \"%s\" %s.sha256 \"%s\" %s.sha256 \"%s\" %s.compressed_bytes %d %s.compressed_bytes %d",
+										fp, f2.Path, fp2, f.Path, fp, f2.SHA256, fp2, f.SHA256, fp, f2.CompressedBytes, fp2, f.CompressedBytes))
+								}
+							}
+						}
+					}
+				}
+			}
+			for len(ops) > 0 {
+				n := len(ops)
+				if n > 150 {
+					n = 150
+				}
+				header(fmt.Sprintf("manifest-consistent %s lbatch=%d", codec, lbatch), dumpLine)
+				fmt.Fprintln(w, "noop")
+				for _, o := range ops[:n] {
+					fmt.Fprintln(w, o)
+				}
+				ops = ops[n:]
+			}
+		}
 	}
 	// --- random small dumps, a few random mutations each (other sizes / shard boundaries)
 	n := 12
